@@ -54,7 +54,7 @@ pub fn sx_to_item(s: &Sx) -> Option<Item> {
 // ---------------------------------------------------------------------------------------------
 // Whole PushState <-> sx (see coq/theories/Suites/SState.v)
 use pushr::push::configuration::PushConfiguration;
-use pushr::push::graph::Graph;
+use pushr::push::graph::{Edge, Graph, Node};
 use pushr::push::io::PushMessage;
 use pushr::push::stack::{PushPrint, PushStack};
 use pushr::push::state::PushState;
@@ -72,39 +72,27 @@ fn msg_to_sx(m: &PushMessage) -> Sx {
     Sx::L(vec![Sx::list(m.header.values.iter(), |z| Sx::z(*z)), Sx::list(m.body.values.iter(), |b| Sx::b(*b))])
 }
 
-/// Node ids are process-global; they are renamed in order of first occurrence while the state is
-/// written out (graphs oldest first; within a graph nodes sorted by id, edges by destination).
-pub struct IdMap {
-    pub to_canon: HashMap<usize, i128>,
-}
-impl IdMap {
-    pub fn new() -> Self { IdMap { to_canon: HashMap::new() } }
-    pub fn canon(&mut self, id: usize) -> i128 {
-        let n = self.to_canon.len() as i128 + 1;
-        *self.to_canon.entry(id).or_insert(n)
-    }
-}
-
-pub fn graph_to_sx(g: &Graph, ids: &mut IdMap) -> Sx {
+/// Graphs are written with their REAL node ids (id protocol: coq/theories/Model/IGraph.v header):
+/// nodes sorted by id, incoming-edge lists sorted by destination, each list in Vec order.
+pub fn graph_to_sx(g: &Graph) -> Sx {
     let mut nodes: Vec<(usize, i32)> = g.nodes.iter().map(|(k, n)| (*k, n.get_state())).collect();
     nodes.sort();
-    let ns: Vec<Sx> = nodes.iter().map(|(k, s)| Sx::L(vec![Sx::Z(ids.canon(*k)), Sx::z(*s)])).collect();
+    let ns: Vec<Sx> = nodes.iter().map(|(k, s)| Sx::L(vec![Sx::u(*k), Sx::z(*s)])).collect();
     let mut dests: Vec<usize> = g.edges.keys().cloned().collect();
     dests.sort();
     let mut es = Vec::new();
     for d in dests {
-        let inc: Vec<Sx> = g.edges[&d].iter().map(|e| Sx::L(vec![Sx::Z(ids.canon(e.get_origin_id())), f32_sx(e.get_weight())])).collect();
-        es.push(Sx::L(vec![Sx::Z(ids.canon(d)), Sx::L(inc)]));
+        let inc: Vec<Sx> = g.edges[&d].iter().map(|e| Sx::L(vec![Sx::u(e.get_origin_id()), f32_sx(e.get_weight())])).collect();
+        es.push(Sx::L(vec![Sx::u(d), Sx::L(inc)]));
     }
     Sx::L(vec![Sx::L(ns), Sx::L(es)])
 }
 
 pub fn state_to_sx(s: &PushState) -> Sx {
-    let mut ids = IdMap::new();
     let mut binds: Vec<(&String, &Item)> = s.name_bindings.iter().collect();
     binds.sort_by(|a, b| a.0.cmp(b.0));
     let c = &s.configuration;
-    let graphs: Vec<Sx> = s.graph_stack.iter().map(|g| graph_to_sx(g, &mut ids)).collect();
+    let graphs: Vec<Sx> = s.graph_stack.iter().map(graph_to_sx).collect();
     Sx::L(vec![
         stack_to_sx(&s.bool_stack, |b| Sx::b(*b)),
         stack_to_sx(&s.code_stack, item_to_sx),
@@ -146,44 +134,119 @@ fn sx_to_msg(m: &Sx) -> Option<PushMessage> {
     ))
 }
 
-/// Builds a graph from its wire form; symbolic node ids are mapped to freshly created real ids.
-pub fn sx_to_graph(g: &Sx, real: &mut HashMap<i128, usize>) -> Option<Graph> {
-    let g = g.as_l()?;
-    let mut out = Graph::new();
-    for n in g.get(0)?.as_l()? {
-        let n = n.as_l()?;
-        let sym = n.get(0)?.as_z()?;
-        let st = n.get(1)?.as_i32()?;
-        match real.get(&sym) {
-            Some(id) => {
-                // the same node (same id) present in an earlier snapshot: clone it with that id
-                let mut tmp = Graph::new();
-                let nid = tmp.add_node(st);
-                let mut node = tmp.nodes.remove(&nid)?;
-                // Node has no public id setter: ids are only equal across snapshots made by cloning
-                let _ = &mut node;
-                let _ = id;
-                return None;
-            }
-            None => {
-                let id = out.add_node(st);
-                real.insert(sym, id);
-            }
-        }
+/// A mirror of the process-global NODE_COUNTER (private to pushr): it can be read by creating a node
+/// and advanced by creating and dropping nodes, never lowered.  `cur` is the id the next Node::new gets.
+/// Single-threaded use only.
+pub struct NodeCounter { pub cur: usize }
+pub const MAX_BURN: usize = 50_000_000;
+impl NodeCounter {
+    pub fn read() -> Self { NodeCounter { cur: Node::new(0).get_id() + 1 } }
+    /// false: the counter is already beyond `target` (or absurdly far below it)
+    pub fn burn_to(&mut self, target: usize) -> bool {
+        if target < self.cur || target - self.cur > MAX_BURN { return false; }
+        while self.cur < target { let _ = Node::new(0); self.cur += 1; }
+        true
     }
-    for e in g.get(1)?.as_l()? {
-        let e = e.as_l()?;
-        let d = *real.get(&e.get(0)?.as_z()?)?;
-        for inc in e.get(1)?.as_l()? {
-            let inc = inc.as_l()?;
-            let o = *real.get(&inc.get(0)?.as_z()?)?;
-            out.add_edge(o, d, inc.get(1)?.as_f32()?);
-        }
+    pub fn make(&mut self, id: usize, state: i32) -> Option<Node> {
+        if !self.burn_to(id) { return None; }
+        let n = Node::new(state);
+        self.cur += 1;
+        if n.get_id() != id { return None; }
+        Some(n)
     }
-    Some(out)
 }
 
-pub fn sx_to_state(s: &Sx) -> Option<PushState> {
+#[derive(Debug)]
+pub enum BuildErr {
+    /// the case cannot be decoded / violates the id protocol
+    Bad,
+    /// the process counter is already beyond an id the case needs: only a fresh process can run it
+    Regress,
+}
+
+fn wire_graph(g: &Sx) -> Option<(Vec<(usize, i32)>, Vec<(usize, Vec<(usize, f32)>)>)> {
+    let g = g.as_l()?;
+    if g.len() != 2 { return None; }
+    let mut ns = vec![];
+    for n in g[0].as_l()? {
+        let n = n.as_l()?;
+        if n.len() != 2 { return None; }
+        ns.push((n[0].as_usize()?, n[1].as_i32()?));
+    }
+    let mut es = vec![];
+    for e in g[1].as_l()? {
+        let e = e.as_l()?;
+        if e.len() != 2 { return None; }
+        let mut inc = vec![];
+        for x in e[1].as_l()? {
+            let x = x.as_l()?;
+            if x.len() != 2 { return None; }
+            inc.push((x[0].as_usize()?, x[1].as_f32()?));
+        }
+        es.push((e[0].as_usize()?, inc));
+    }
+    Some((ns, es))
+}
+
+/// Builds the GRAPH stack (oldest first on the wire) with exactly the node ids of the wire form and leaves the
+/// process counter at `next_node`.  A node id shared by several snapshots is one Node value cloned into each
+/// (as GRAPH.DUP / Graph::clone produce), its state set per snapshot; edges are stored through the public
+/// `edges` field in the given order, so lists the API could not produce (dangling ends) can be built too.
+fn build_graphs(l: &Sx, next_node: i128) -> Result<Vec<Graph>, BuildErr> {
+    let mut wire = vec![];
+    for g in l.as_l().ok_or(BuildErr::Bad)? { wire.push(wire_graph(g).ok_or(BuildErr::Bad)?); }
+    let mut ids: Vec<usize> = wire.iter().flat_map(|(ns, _)| ns.iter().map(|(k, _)| *k)).collect();
+    ids.sort();
+    ids.dedup();
+    if ids.is_empty() && next_node == 1 {
+        // no node id is fixed by the case: the counter is left alone
+        let mut out = vec![];
+        for (_, es) in &wire {
+            let mut g = Graph::new();
+            for (d, inc) in es { g.edges.insert(*d, inc.iter().map(|(o, w)| Edge::new(*o, *w)).collect()); }
+            out.push(g);
+        }
+        return Ok(out);
+    }
+    if next_node < 1 || next_node > (usize::MAX as i128) { return Err(BuildErr::Bad); }
+    let next_node = next_node as usize;
+    if let Some(mx) = ids.last() { if *mx >= next_node { return Err(BuildErr::Bad); } }
+    let mut ctr = NodeCounter::read();
+    let lowest = *ids.first().unwrap_or(&next_node);
+    if lowest < ctr.cur { return Err(BuildErr::Regress); }
+    if next_node - ctr.cur > MAX_BURN { return Err(BuildErr::Bad); }
+    let mut proto: HashMap<usize, Node> = HashMap::new();
+    for id in &ids { proto.insert(*id, ctr.make(*id, 0).ok_or(BuildErr::Bad)?); }
+    let mut out = vec![];
+    for (ns, es) in &wire {
+        let mut g = Graph::new();
+        for (k, st) in ns {
+            let mut n = proto[k].clone();
+            n.set_state(*st);
+            if g.nodes.insert(*k, n).is_some() { return Err(BuildErr::Bad); }
+        }
+        for (d, inc) in es {
+            if g.edges.insert(*d, inc.iter().map(|(o, w)| Edge::new(*o, *w)).collect()).is_some() { return Err(BuildErr::Bad); }
+        }
+        out.push(g);
+    }
+    if !ctr.burn_to(next_node) { return Err(BuildErr::Bad); }
+    Ok(out)
+}
+
+/// state with an empty world: no node id fixed (next_node = 1)
+#[allow(dead_code)]
+pub fn sx_to_state(s: &Sx) -> Option<PushState> { sx_to_state_at(s, 1).ok() }
+
+pub fn sx_to_state_at(s: &Sx, next_node: i128) -> Result<PushState, BuildErr> {
+    let graphs = build_graphs(s.as_l().and_then(|l| l.get(12)).ok_or(BuildErr::Bad)?, next_node);
+    match graphs {
+        Err(e) => Err(e),
+        Ok(gs) => fill_state(s, gs).ok_or(BuildErr::Bad),
+    }
+}
+
+fn fill_state(s: &Sx, graphs: Vec<Graph>) -> Option<PushState> {
     let l = s.as_l()?;
     if l.len() != 17 { return None; }
     let mut st = PushState::new();
@@ -199,8 +262,8 @@ pub fn sx_to_state(s: &Sx) -> Option<PushState> {
     fill(&mut st.int_vector_stack, &l[9], |x| Some(IntVector::new(x.as_l()?.iter().map(|b| b.as_i32()).collect::<Option<_>>()?)))?;
     for m in l[10].as_l()? { st.input_stack.push(sx_to_msg(m)?); }
     for m in l[11].as_l()? { st.output_stack.push(sx_to_msg(m)?); }
-    let mut real: HashMap<i128, usize> = HashMap::new();
-    for g in l[12].as_l()? { st.graph_stack.push(sx_to_graph(g, &mut real)?); }
+    if graphs.len() > 100 { return None; }
+    for g in graphs { st.graph_stack.push(g); }
     for b in l[13].as_l()? {
         let b = b.as_l()?;
         st.name_bindings.insert(b.get(0)?.as_string()?, sx_to_item(b.get(1)?)?);
